@@ -1,9 +1,12 @@
-\* exhaustive: cells with |index| <= 6 x {centre cell, no centre cell} x {periodic, reflective, full}; act is part of the state
-CONSTANTS R = 6  MaxLevel = 2
+\* exhaustive: cells with |index| <= 6 x {centre cell, no centre cell} x {periodic (square cells), reflective, full (square, 2x1, 1x3 cells)};
+\* act is part of the state; quick: every Apply / ChangePitch step out of every state (all states are initial); thorough (MaxLevel 3) also two steps in a row
+CONSTANTS R = 6  MaxLevel = 2  RectPitches <- RectP  SquarePitches <- SquareP
 INIT Init
 NEXT NextB
 CONSTRAINT Bound
 INVARIANT TypeOK
+INVARIANT OffsetIsHalfCell
+INVARIANT CentreIsGeometric
 INVARIANT CellAtExact
 INVARIANT GroupOrder
 INVARIANT EquivalentsAreImages
@@ -11,4 +14,5 @@ INVARIANT DomainIsQuadrant
 INVARIANT OrbitHasOneInDomain
 INVARIANT LineCellsCounted
 INVARIANT OrbitStableUnderGroup
+INVARIANT ChangePitchKeepsCells
 CHECK_DEADLOCK FALSE
